@@ -64,6 +64,13 @@ func newObj() *testobj.TestObject {
 	}
 }
 
+var sharedOpts = []*inspector.DEQOptions{
+	{Exclude: map[string]struct{}{"Finance.History.Comment": {}}},
+	{Filter: map[string]struct{}{"Finance": {}, "Finance.Balance": {}, "Cost": {}}},
+	{Precision: 0.01, Exclude: map[string]struct{}{"Id": {}}},
+	{},
+}
+
 var (
 	shared   = newObj()
 	shared2  = newObj()
@@ -120,7 +127,9 @@ func work(seed int64, gid, nops int, written func()) ([]string, []string) {
 			err2 := objIns.Loop(shared, it2, &lbuf, lp...)
 			res += fmt.Sprint(" loop2 ", it2.n, err2)
 		case 6:
-			res = fmt.Sprint("deq ", objIns.DeepEqual(shared, shared2), objIns.DeepEqualWithOptions(shared, shared2, &inspector.DEQOptions{Exclude: map[string]struct{}{"Cost": {}}}))
+			res = fmt.Sprint("deq ", objIns.DeepEqual(shared, shared2), objIns.DeepEqualWithOptions(shared, shared2, &inspector.DEQOptions{Exclude: map[string]struct{}{"Cost": {}}}),
+				// options objects are values callers share too: one without a precision, one with, used by every goroutine
+				objIns.DeepEqualWithOptions(shared, shared2, sharedOpts[r.Intn(len(sharedOpts))]))
 		case 7:
 			c, err := objIns.Copy(shared)
 			res = "copy " + emit.Dump(reflect.ValueOf(c).Elem()) + fmt.Sprint(err)
